@@ -721,4 +721,72 @@ theorem parse_mixed {n f d : List Char} {q : Rat} {a : Int} {b : Nat} (hn : SNum
   rw [init_fin_fin _ _ hbR, normalise_int]
   simp [FV.init, setFraction]
 
+/-! ### `str()` of a printable FractionValue -/
+
+/-- at most six significant digits and `1e-4 ≤ |q| < 1e6`, or zero: `|q| = r / 10^s` with a
+six-digit `r` and `s ≤ 9` -/
+def Printable (q : Rat) : Prop :=
+  q = 0 ∨ ∃ r s : Nat, 100000 ≤ r ∧ r < 1000000 ∧ s ≤ 9 ∧ |q| = (r : Rat) / 10 ^ s
+
+theorem numText_natDigits (n : Nat) : NumText (natDigits n) (n : Rat) :=
+  ⟨natDigits n, [], by simp, natDigits_ne_nil n, natDigits_allDigits n, by intro c hc; simp at hc,
+   by simp [readDigits_natDigits]⟩
+
+theorem fmtG_printable {q : Rat} (h : Printable q) : SNumText (fmtG q) q := by
+  rcases h with rfl | ⟨r, s, hr, hr', hs, hq⟩
+  · right
+    have : fmtG 0 = natDigits 0 := rfl
+    rw [this]
+    simpa using numText_natDigits 0
+  · rw [fmtG_fixed q r s hr hr' hs hq]
+    have hnt := renderFixed_numText r s
+    by_cases hneg : q < 0
+    · rw [if_pos hneg]
+      left
+      refine ⟨_, _, rfl, hnt, ?_⟩
+      rw [← hq, abs_of_neg hneg]; ring
+    · rw [if_neg hneg]
+      right
+      rw [← hq, abs_of_nonneg (not_lt.mp hneg)] at hnt
+      exact hnt
+
+theorem fmtG_int_snum (z : Int) (h : z.natAbs < 1000000) : SNumText (fmtG (z : Rat)) (z : Rat) := by
+  rw [fmtG_int z h]
+  by_cases hz : z < 0
+  · rw [if_pos hz]
+    left
+    refine ⟨_, _, rfl, numText_natDigits z.natAbs, ?_⟩
+    have : z = -(z.natAbs : Int) := by omega
+    conv_lhs => rw [this]
+    rw [Int.cast_neg, Int.cast_natCast]
+  · rw [if_neg hz]
+    right
+    have : z = (z.natAbs : Int) := by omega
+    have e : (z : Rat) = ((z.natAbs : Nat) : Rat) := by
+      conv_lhs => rw [this]
+      rw [Int.cast_natCast]
+    rw [e]
+    exact numText_natDigits z.natAbs
+
+/-- **formatting followed by parsing gives the FractionValue back**, number, numerator and
+denominator, for every printable number and every fraction with numerator and denominator below
+a million -/
+theorem parse_str (v : FV) (hn : Printable v.number) (hnum : v.frac.x.num.natAbs < 1000000)
+    (hden : v.frac.x.den < 1000000) : parse v.str = .ok v := by
+  have hN := fmtG_printable hn
+  unfold FV.str
+  by_cases h0 : v.frac.toFloat = 0
+  · rw [if_pos h0, parse_number hN]
+    cases v with
+    | mk n f => cases f with
+      | mk x => simp only [Frac.toFloat] at h0; subst h0; rfl
+  · rw [if_neg h0]
+    unfold Frac.str Frac.numerator Frac.denominator
+    have hF := fmtG_int_snum v.frac.x.num hnum
+    have hD : fmtG ((v.frac.x.den : Int) : Rat) = natDigits v.frac.x.den := by
+      rw [Int.cast_natCast]; exact fmtG_nat _ hden
+    rw [hD]
+    rw [parse_mixed hN hF (natDigits_allDigits _) (natDigits_ne_nil _) (readDigits_natDigits _) v.frac.x.den_nz]
+    rw [Rat.num_div_den]
+
 end Barril.Frac
